@@ -29,6 +29,11 @@ CHECKS = {
   technique="runtime monitoring: generated resource sets pushed through the real Terraform-plan and API fetch paths and the CLI; every generated item re-parsed by falco's parser and compared field by field with the source data (reference-model monitor)",
   text="Resource sets (dictionaries, ACLs, backends, directors, header rules, response objects, snippets, conditions) with hostile values are turned into a Terraform plan JSON and run through terraform.ParseStdin -> TerraformFetcher -> snippet.Fetch -> EmbedSnippets, through a fake API fetcher, and through the `falco terraform` binary; each generated declaration must parse and carry exactly the keys, values, addresses, masks, negations, identifiers and members of its resource.",
   note="Trusts the harness's statement of what Fastly accepts as names (identifier characters; '-', '.', space for backends/directors; no VCL keywords) and falco's own parser as the reader of the generated text."),
+ "C06": dict(
+  category="exploration", design_ref="DESIGN.md §4 C06",
+  technique="runtime monitoring: per-request flow/log trace recorded at the ServeHTTP boundary, checked offline against a reference Fastly state machine + cache model that replays the program's declared actions",
+  text="Generated programs (all single deviations from the default path x entry branch, all restart-loop forms, pairs/triples of deviations, 3-request histories over URL and TTL classes, rate-counter/penalty-box persistence) are served by one real Interpreter through ServeHTTP; flows[].subroutine (cross-checked with an independent log-statement trace), restarts, error, cached, X-Cache and X-Cache-Hits of every reply must equal the reference machine's path, restart count (<=3, fourth restart = reported error), exactly-one-final-vcl_log and hit/miss branch. Exhaustive over single deviations and restart forms; pairs complete in thorough.",
+  note="Trusts the reference table transcribed from the Fastly lifecycle documentation (successor per (scope, action), pass never stores, object enters the cache at the end of vcl_fetch); undocumented situations are accepted as long as they do not crash and are counted separately in the evidence."),
 }
 
 NOT_APPLICABLE = {}
